@@ -17,7 +17,10 @@ CONFIGS = [
     ("ext4_ss2", ["-t", "ext4", "-b", "1024", "-O", "sparse_super2"]),
     ("ext4_quota", ["-t", "ext4", "-b", "1024", "-O", "quota"]),
     ("ext4_nocsum", ["-t", "ext4", "-b", "1024", "-O", "^metadata_csum,uninit_bg"]),
+    ("ext4_norsz_g256", ["-t", "ext4", "-b", "1024", "-O", "^resize_inode", "-g", "256", "-N", "768"]),     # growing moves inode tables
+    ("ext4_fewinodes", ["-t", "ext4", "-b", "1024", "-g", "2048", "-N", "400"]),                             # shrinking renumbers inodes
 ]
+KINDS = ["grow", "shrink", "min", "grow", "shrink", "same"]
 START = ["12M", "20M", "33M", "64M"]
 REFUSALS = ["New size smaller than minimum", "New size too large", "Nothing to do", "is already"]
 
@@ -105,17 +108,24 @@ def one_case(src, mexe, idx, seed, tier):
     name, opts = CONFIGS[idx % len(CONFIGS)]
     start = START[(idx // len(CONFIGS)) % len(START)]
     fill = r.choice([0.15, 0.35, 0.55])
-    base = mkimg.cached_fs(src, WORK, name, opts, start, 1 + int(fill * 100), fill=fill)
+    kw = {}
+    if name == "ext4_fewinodes" or (idx // len(CONFIGS)) % 5 == 4:
+        fill = 0.1
+        kw = {"filler_fraction": 0.8, "nfiles": 60}
+    base = mkimg.cached_fs(src, WORK, name + ("_f" if kw else ""), opts, start, 1 + int(fill * 100), fill=fill, **kw)
     img = os.path.join(WORK, "r_%d.img" % idx)
     shutil.copy(base, img)
     fs0 = Fs(base)
-    kind = r.choice(["grow", "grow", "shrink", "shrink", "min", "same"])
+    kind = KINDS[(idx // len(CONFIGS)) % len(KINDS)] if idx < 4 * len(CONFIGS) else r.choice(KINDS)
     env = e2v.tool_env(src, RESIZE2FS_FORCE_LAZY_ITABLE_INIT="1") if r.random() < 0.5 else e2v.tool_env(src)
     if kind == "min":
         args = ["-M"]
         req = None
     else:
         req = pick_target(r, fs0, kind)
+        if kw and kind == "shrink" and fs0.groups_count > 2 and r.random() < 0.7:
+            # drop only the last group(s): their block-less inodes are renumbered while no block has to move
+            req = fs0.first_data_block + (fs0.groups_count - r.choice([1, 1, 2])) * fs0.blocks_per_group
         args = [str(req)]
     extra = r.choice([[], [], ["-f"], ["-p"]])
     recipe = {"config": name, "mke2fs": opts, "start": start, "fill": fill, "kind": kind, "args": extra + args, "case_index": idx}
@@ -234,7 +244,7 @@ def run(res, replay=None):
     ]
     res.cov["partial"] = ["proved: the geometry retry loop of adjust_fs_info and the crash protocol (error flag); the block mover, inode renumbering, inode-table moves and bitmap rebuilding are validated per run by the tree comparison and the independent consistency reader, not modelled",
                           "online resize (mounted filesystem) is out of reach in the sandbox; bigalloc and inline_data are outside the independent reader"]
-    n = 30 if tier == "quick" else 2000
+    n = 48 if tier == "quick" else 2400
     idxs = [json.load(open(replay))["recipe"]["case_index"]] if replay else list(range(n))
     with concurrent.futures.ThreadPoolExecutor(12) as ex:
         outs = list(ex.map(lambda i: one_case(src, mexe, i, seed, tier), idxs))
@@ -255,7 +265,7 @@ def run(res, replay=None):
                                  "compared": "blocks count, group count, inode count of the result vs resize_geom on the request printed by resize2fs; the real write trace judged by the extracted protocol_check"}
     res.cov["oracle"] = {"evaluations": len(outs), "failures": len(bad), "distribution": dist, "crash_images": crash,
                          "statement": "after a successful resize: identical tree, independent consistency, e2fsck -fn exit 0, size as reported; refused requests leave the filesystem unchanged; the error flag is on disk while the operation is partial"}
-    res.cov["rule"] = "10 feature sets x 4 start sizes x 3 fill levels x {grow, shrink, -M, same}; targets at group boundaries +- {0,1,overhead+49..51}; non-trivial = the filesystem was resized"
+    res.cov["rule"] = "12 feature sets (one whose growth moves inode tables, one populated so that a shrink renumbers block-less inodes) x 4 start sizes x 3 fill levels x {grow, shrink, -M, same}; targets at group boundaries +- {0,1,overhead+49..51}; non-trivial = the filesystem was resized"
     res.add_obligation("geometry and protocol agree with the model on all runs", not any("model" in p for b in bad for p in b[1]))
 
     def sig(recipe, problems):
